@@ -175,6 +175,12 @@ def events_for(pp, rnd, A, tag):
     return evs
 
 
+def _job(args):
+    import peptacular as pp
+    warnings.simplefilter("ignore")
+    return events_for(pp, random.Random(args[0]), args[1], args[2])
+
+
 def run(tier, seed, rep):
     warnings.simplefilter("ignore")
     import peptacular as pp
@@ -182,11 +188,12 @@ def run(tier, seed, rep):
     thorough = tier == "thorough"
     r = core.model_check("MC_Equal", "MC_Equal.cfg", workers=4, xmx="6g")
     rep.add_mc("MC_Equal (Equal is an equivalence that separates every single-field perturbation)", r)
-    evs = []
+    jobs = []
     for i in range(6000 if thorough else 600):
         A = anngen.annotation(rnd, 1, 12, density=0.4, p={"interval": 0.4, "charge": 0.4, "labile": 0.3,
                                                            "unknown": 0.3, "static": 0.3, "isotope": 0.3})
-        evs.extend(events_for(pp, rnd, A, f"a{i}"))
+        jobs.append((rnd.randrange(10 ** 9), A, f"a{i}"))
+    evs = [e for lst in core.pmap(_job, jobs) for e in lst]
     res = core.validate_traces("Trace_Annotation", evs, "C20")
     rep.add_trace("dictionaries_copies_equality", evs, res,
                   sig=lambda e: (e["op"], e.get("what"), tuple(sorted(k for k in SLOTS + ["internal", "intervals"] if e["A"][k])),
